@@ -270,6 +270,8 @@ func (e *c07Exp) mro() string {
 			}
 		}
 		return "{" + strings.Join(parts, ", ") + "}"
+	case 'x': // verbatim text (mutation oracle only)
+		return e.str
 	case 'r':
 		return "self." + strings.Join(append([]string{e.id}, e.path...), ".")
 	case 'c':
